@@ -82,6 +82,7 @@ MUTATIONS = [
     ("C01", "output-dimensions-in-sorted-index-order", "compile/_tensor_method.py", "            index_sizes[index] for index in self._problem.assignment.target.indexes", "            index_sizes[index] for index in sorted(self._problem.assignment.target.indexes)", 1),
     ("C01", "dimension-read-from-next-position", "iteration_graph/_generate_ir.py", "            value = Variable(tensor_layer.name).attr(\"dimensions\").idx(tensor_layer.dimension)", "            value = Variable(tensor_layer.name).attr(\"dimensions\").idx(max(tensor_layer.dimension - 1, 0))", 1),
     ("C16", "sum-context-skips-first-term", "iteration_graph/iteration_graph.py", "        context = Context(is_sparse=True)\n        for term in self.terms:", "        context = Context(is_sparse=True)\n        for term in self.terms[1:]:", 1),
+    ("C03", "sum-single-term-returned-unexhausted", "iteration_graph/iteration_graph.py", "        elif len(new_terms) == 1:\n            return new_terms[0]", "        elif len(new_terms) == 1:\n            return self.terms[0]", 1),
     ("C03", "harmless-exhaust-reorder", "iteration_graph/identifiable_expression/_exhaust_tensor.py", "    left_exhausted = exhaust_tensor(self.left, reference)\n    right_exhausted = exhaust_tensor(self.right, reference)\n    if left_exhausted is self.left and right_exhausted is self.right:\n        # Short circuit when there are no changes\n        return self\n    elif left_exhausted == Integer(0):", "    new_right = exhaust_tensor(self.right, reference)\n    new_left = exhaust_tensor(self.left, reference)\n    left_exhausted, right_exhausted = new_left, new_right\n    if right_exhausted is self.right and left_exhausted is self.left:\n        return self\n    elif left_exhausted == Integer(0):", 0),
     ("C16", "harmless-context-commuted", "iteration_graph/identifiable_expression/_extract_context.py", "            is_sparse=self.is_sparse and other.is_sparse,", "            is_sparse=other.is_sparse and self.is_sparse,", 0),
     ("C01", "harmless-desugar-add-reordered", "desugar/_desugar_expression.py", "    left_indexes = set(self.left.index_participants().keys()).intersection(contract_indexes)\n    right_indexes = set(self.right.index_participants().keys()).intersection(contract_indexes)\n\n    intersection_indexes = {\n        index\n        for index in left_indexes.intersection(right_indexes)\n        if every_term_has_index(self.left, index) and every_term_has_index(self.right, index)\n    }\n\n    output = desugar.Add(\n        desugar_expression(self.left, left_indexes - intersection_indexes, ids),\n        desugar_expression(self.right, right_indexes - intersection_indexes, ids),\n    )\n\n    for index in intersection_indexes:\n        output = desugar.Contract(index, output)\n\n    return output\n\n\n@desugar_expression.register(sugar.Subtract)", "    right_indexes = set(self.right.index_participants().keys()).intersection(contract_indexes)\n    left_indexes = set(self.left.index_participants().keys()).intersection(contract_indexes)\n\n    shared = {\n        index\n        for index in right_indexes.intersection(left_indexes)\n        if every_term_has_index(self.right, index) and every_term_has_index(self.left, index)\n    }\n    new_left = desugar_expression(self.left, left_indexes - shared, ids)\n    new_right = desugar_expression(self.right, right_indexes - shared, ids)\n\n    output = desugar.Add(new_left, new_right)\n\n    for index in shared:\n        output = desugar.Contract(index, output)\n\n    return output\n\n\n@desugar_expression.register(sugar.Subtract)", 0),
